@@ -159,9 +159,11 @@ def mountHdFile : Top RC := do
   Top.setCfg { c with vols := [vc] }
   return rcOK
 
-/-- PART list of `adfMountHd` -/
+def MAX_RDB_LIST : Nat := 512
+
+/-- PART list of `adfMountHd` (at most MAX_RDB_LIST blocks) -/
 def mountHdParts (cylBlocks : Nat) : (fuel : Nat) → (next : Nat) → (acc : List VolCfg) → Prog (RC × List VolCfg)
-  | 0, next, acc => if next = NEG1 then return (rcOK, acc) else fault (.outOfFuel "adfMountHd.part.next")
+  | 0, next, acc => if next = NEG1 then return (rcOK, acc) else return (rcError, acc)
   | fuel+1, next, acc => do
     if next = NEG1 then return (rcOK, acc)
     let (rc, buf) ← devRead next 256
@@ -171,20 +173,33 @@ def mountHdParts (cylBlocks : Nat) : (fuel : Nat) → (next : Nat) → (acc : Li
     if part.w 33 ≠ 128 then return (rcError, acc)
     let first := (cylBlocks * part.w 41) % 4294967296
     let last := ((part.w 42 + 1) * cylBlocks + 4294967296 - 1) % 4294967296
-    let nl := min (part.byte 0x24) 30
-    let vc : VolCfg := { firstBlock := first, lastBlock := last, rootBlock := (last - first + 1) / 2,
-                         volName := some (part.bytes 0x25 nl), mounted := false }
+    let nl := min (part.byte 0x24) 31
+    let root := ofInt32 ((toInt32 last - toInt32 first + 1).tdiv 2)
+    let vc : VolCfg := { firstBlock := first, lastBlock := last, rootBlock := root,
+                         volName := some (cstr (part.bytes 0x25 nl)), mounted := false }
     mountHdParts cylBlocks fuel (part.w 4) (acc ++ [vc])
 
-def mountHdList (tag : String) (nextOff : Nat) : (fuel : Nat) → (next : Nat) → (last : Blk) → Prog (RC × Blk)
-  | 0, next, last => if next = NEG1 then return (rcOK, last) else fault (.outOfFuel ("adfMountHd." ++ tag))
-  | fuel+1, next, last => do
-    if next = NEG1 then return (rcOK, last)
-    let (rc, buf) ← devRead next (if tag = "LSEG" then 512 else 256)
-    if rc ≠ rcOK then return (rc, last)
+/-- FSHD list: every block must read and carry the id; too long a list is an error -/
+def mountHdFshd : (fuel : Nat) → (next : Nat) → (segList : Nat) → Prog (RC × Nat)
+  | 0, next, seg => if next = NEG1 then return (rcOK, seg) else return (rcError, seg)
+  | fuel+1, next, seg => do
+    if next = NEG1 then return (rcOK, seg)
+    let (rc, buf) ← devRead next 256
+    if rc ≠ rcOK then return (rc, seg)
     let b := blkOfBytes buf
-    if b.w 0 ≠ wordOfAscii tag then return (rcError, b)
-    mountHdList tag nextOff fuel (b.w nextOff) b
+    if b.w 0 ≠ wordOfAscii "FSHD" then return (rcError, seg)
+    mountHdFshd fuel (b.w 4) (b.w 18)
+
+/-- LSEG list: stops at the first block that cannot be read or has no id, and after MAX_RDB_LIST blocks -/
+def mountHdLseg : (fuel : Nat) → (next : Nat) → Prog Unit
+  | 0, _ => return ()
+  | fuel+1, next => do
+    if next = NEG1 then return ()
+    let (rc, buf) ← devRead next 512
+    if rc ≠ rcOK then return ()
+    let b := blkOfBytes buf
+    if b.w 0 ≠ wordOfAscii "LSEG" then return ()
+    mountHdLseg fuel (b.w 4)
 
 /-- `adfMountHd` -/
 def mountHd : Top RC := do
@@ -193,19 +208,17 @@ def mountHd : Top RC := do
   if rc ≠ rcOK then return rc
   let rdsk := blkOfBytes buf
   if rdsk.w 0 ≠ wordOfAscii "RDSK" then return rcError
-  let fuel := c.devSize / 512 + 2
   Top.setCfg { c with cylinders := rdsk.w 16, heads := rdsk.w 18, sectors := rdsk.w 17 }
-  let (rc, vols) ← Top.prog (mountHdParts (rdsk.w 36) fuel (rdsk.w 7) [])
+  let (rc, vols) ← Top.prog (mountHdParts (rdsk.w 36) MAX_RDB_LIST (rdsk.w 7) [])
   if rc ≠ rcOK then return rc
   let c ← Top.getCfg
   Top.setCfg { c with vols := vols }
-  let (rc, fshd) ← Top.prog (mountHdList "FSHD" 4 fuel (rdsk.w 8) (zeroBlk.setW 18 NEG1))
+  let (rc, seg) ← Top.prog (mountHdFshd MAX_RDB_LIST (rdsk.w 8) NEG1)
   if rc ≠ rcOK then
     let c ← Top.getCfg
     Top.setCfg { c with vols := [] }
     return rc
-  -- LSEG errors only warn
-  let _ ← Top.prog (mountHdList "LSEG" 4 fuel (fshd.w 18) zeroBlk)
+  Top.prog (mountHdLseg MAX_RDB_LIST seg)
   return rcOK
 
 /-- `adfMountDev(name, ro)` on the existing image -/
